@@ -55,3 +55,20 @@ type QOuter struct {
 	Cm  QCtxM
 	QLeaf
 }
+
+// QTagged: members with tag options, so that a query meets omitempty on nil pointers, interfaces,
+// maps and slices, the string option and an ignored member.
+type QTagged struct {
+	A  int            `json:"a,omitempty"`
+	P  *QLeaf         `json:"p,omitempty"`
+	I  interface{}    `json:"i,omitempty"`
+	S  string         `json:"s,omitempty"`
+	N  int            `json:"n,string"`
+	Sk int            `json:"-"`
+	M  map[string]int `json:"m,omitempty"`
+	L  []int          `json:"l,omitempty"`
+	In QInner         `json:"in"`
+	PI *int           `json:"pi,omitempty"`
+	PP *QTagged       `json:"pp,omitempty"`
+	Z  int            `json:"z"`
+}
